@@ -3,7 +3,7 @@
    spec_pac_entry  the PAC keyword table of the statement
    spec_redirect   --connect-to: first matching rule, empty = any / unchanged, no rule = identity
    spec_route    the party the connection is opened to and what it is used as *)
-From G05 Require Export Routing.
+From G05 Require Export Routing Ip.
 
 Inductive ptype := THttp | THttps | TSocks5.
 Inductive hop := HDirect | HProxy (ty : ptype) (hostport : str) | HFail.
@@ -62,9 +62,12 @@ Definition hop_presult (h : hop) : presult :=
   match h with HDirect => PDirect | HFail => PFail | HProxy ty hp => PUrl (ptype_scheme ty) hp end.
 
 (* a host is a direct-domains host when the list matches its name as written or the name that is actually
-   contacted (its IDNA-mapped ASCII form) *)
+   contacted (its IDNA-mapped ASCII form), with or without the trailing dot of a fully qualified name *)
 Definition direct_domain (cfg : config) (h : str) : bool :=
-  match c_direct cfg with Some m => m h || m (c_idna cfg h) | None => false end.
+  match c_direct cfg with
+  | Some m => existsb m [h; c_idna cfg h; strip_dot h; strip_dot (c_idna cfg h)]
+  | None => false
+  end.
 Definition localhost_direct (cfg : config) (h : str) : bool :=
   str_eqb (c_lh_mode cfg) (b "direct") && c_is_localhost cfg h.
 
@@ -188,21 +191,13 @@ Definition spec_exchange (cfg : config) (rules : list rule) (t : target) (attemp
 (* ------------------------------------------------------------------ localhost (for the hosts of the e2e pool) *)
 (* The classifier hp.isLocalhost is an oracle of this group (it is modelled and proved complete in C04).  So that
    a change of it does not go unseen here, its answers are compared with this small reference on a fixed pool:
-   names (case-insensitively "localhost" or an alias of a loopback address in the hosts file, as reported by
-   hostsfile.LocalhostAliases), IPv4 dotted quads (127.x.y.z, 0.0.0.0), and the IPv6 spellings listed. *)
-Definition dec_octet (s : str) : option N :=
-  if negb (is_empty s) && forallb is_digit s && Nat.leb (length s) 3
-     && (Nat.eqb (length s) 1 || negb (first_is 48 s)) && (dec_value s <=? 255)
-  then Some (dec_value s) else None.
-Definition ipv4_octets (s : str) : option (list N) :=
-  match map dec_octet (split_byte 46 s) with
-  | [Some a; Some c; Some d; Some e] => Some [a; c; d; e]
-  | _ => None
-  end.
-Definition localhost_ref (aliases : list str) (h : str) : bool :=
-  let l := lower h in
+   the name the transport connects to (IDNA-mapped, lower case, without the trailing dot) is "localhost" or an
+   alias of a loopback address in the hosts file (hostsfile.LocalhostAliases), or an IP literal (net.ParseIP as
+   transcribed in Ip.v, zone ignored) that is a loopback or the unspecified address. *)
+Definition localhost_ref (idna : str -> str) (aliases : list str) (h : str) : bool :=
+  let l := strip_dot (lower (idna h)) in
   str_eqb l (b "localhost") || mem l (map lower aliases) ||
-  match ipv4_octets l with
-  | Some (a :: r) => (a =? 127) || ((a =? 0) && forallb (N.eqb 0) r)
-  | _ => mem l [b "::1"; b "::"; b "0:0:0:0:0:0:0:1"; b "0:0:0:0:0:0:0:0"; b "::ffff:127.0.0.1"; b "::ffff:7f00:1"]
+  match parse_ip (match cut_byte 37 l with Some (x, _) => x | None => l end) with   (* a zone does not change the host *)
+  | Some ip => ip_loopback ip || ip_unspecified ip
+  | None => false
   end.
